@@ -207,7 +207,7 @@ def run(p: Program, rep: Report, tier: str) -> None:
 
     # ------------------------------------------------------------------ R13.3
     resp_mod = p.module("baize.responses")
-    iri = resp_mod.functions.get("iri_to_uri")
+    iri = p.function("baize.responses", "iri_to_uri")
     if iri is None:
         raise AnalysisError("iri_to_uri vanished")
     rep.analysed(iri.fq)
@@ -218,7 +218,7 @@ def run(p: Program, rep: Report, tier: str) -> None:
         if isinstance(c, ast.Call) and p.resolve_call(iri, c) == ("ext", "urllib.parse.quote") and c.args and isinstance(c.args[0], ast.Name) and c.args[0].id == iri.params[0]:
             safe = next((k.value for k in c.keywords if k.arg == "safe"), c.args[1] if len(c.args) > 1 else None)
             try:
-                sv = F.fold(resp_mod, safe) if safe is not None else "/"
+                sv = F.fold(iri.module, safe) if safe is not None else "/"
             except NotConst:
                 rep.undecide("R13.3", "safe= is not a constant")
                 continue
@@ -285,6 +285,9 @@ def run(p: Program, rep: Report, tier: str) -> None:
             if isinstance(n, ast.Call) and isinstance(n.func, ast.Attribute) and n.func.attr == "extend" and len(n.args) == 1 and not isinstance(n.args[0], ast.GeneratorExp):
                 sources.add(ast.unparse(n.args[0]))
     allowed = {"self.headers.items()", "self.cookies"}
+    # a call of a helper of the unit (generator / renderer) is not a source of its own: its body is scanned with the unit
+    unit_names = {f_.name for f_ in unit}
+    sources = {s_ for s_ in sources if not any(s_.startswith(pre + n_ + "(") for n_ in unit_names for pre in ("self.", "cls.", ""))}
     extra = sources - allowed
     if extra:
         rep.violation("R13.4", construct(lh, text="sources " + ", ".join(sorted(extra))), where(lh), "list_headers emits pairs that do not come from the checked header mapping or the cookie list")
@@ -293,7 +296,7 @@ def run(p: Program, rep: Report, tier: str) -> None:
     else:
         rep.undecide("R13.4", f"list_headers sources {sorted(sources)}")
     # cookie lines are produced by Cookie.__str__/__bytes__ only: whatever iterates self.cookies uses the element only as str(c)/bytes(c)
-    okc, seen_c = True, 0
+    okc, seen_c, unknown_c = True, 0, False
     for f_ in unit:
         for n in ast.walk(f_.node):
             if isinstance(n, (ast.comprehension, ast.For)) and ast.unparse(n.iter) == "self.cookies" and isinstance(n.target, ast.Name):
@@ -307,8 +310,13 @@ def run(p: Program, rep: Report, tier: str) -> None:
                         seen_c += 1
                         par = next(iter(parents(u)), None)
                         if not (isinstance(par, ast.Call) and isinstance(par.func, ast.Name) and par.func.id in ("str", "bytes") and par.args == [u]):
-                            okc = False
-    if okc and seen_c:
+                            if isinstance(par, ast.Call) and u in par.args and not (isinstance(par.func, ast.Name) and par.func.id in ("repr", "format", "getattr")):
+                                unknown_c = True  # handed to a callable the rule cannot see through (a renderer picked from a table)
+                            else:
+                                okc = False
+    if okc and unknown_c:
+        rep.undecide("R13.4", "a cookie of self.cookies is handed to a callable the rule cannot resolve (renderer chosen at run time): cannot tell whether the line is str(cookie)/bytes(cookie)")
+    elif okc and seen_c:
         rep.ok("R13.4", "cookie lines are str(cookie)/bytes(cookie)")
     elif not okc:
         rep.violation("R13.4", construct(lh, text="cookie line not str(cookie)/bytes(cookie)"), where(lh), "a Set-Cookie line is produced by something other than Cookie.__str__/__bytes__ (bypasses the escaper)")
